@@ -528,9 +528,9 @@ def run(ctx):
         tlc.check(ctx, "CommitModelMC", cfg_text=mc_cfg("B0", 2, 1, 2, 1, False, MC_INV), label="MC B0: 2 edits, 1 commit", workers=16, timeout=3000)
         tlc.check(ctx, "CommitModelMC", cfg_text=mc_cfg("B1", 2, 1, 1, 1, False, MC_INV), label="MC B1: 2 edits, 1 commit", workers=16, timeout=3000)
     # ---- E1/E2: case generation (every state = one TLC initial state, laws checked on the spec's own outcome)
-    plans = [("B0", 2, 2, 1, 36 if q else 1), ("B1", 1 if q else 2, 2, 1, 3 if q else 3)]
+    plans = [("B0", 2, 2, 1, 36 if q else 2), ("B1", 1 if q else 2, 2, 1, 3 if q else 6)]
     if not q:
-        plans.append(("B0", 3, 1, 1, 100))
+        plans.append(("B0", 3, 1, 1, 300))
         plans.append(("B0", 1, 2, 2, 1))
     states = []
     for bname, maxedits, maxsel, maxexcl, stride in plans:
@@ -580,9 +580,9 @@ def run(ctx):
             combos.append({"all": True, "sel": [], "excl": [paths[-1]], "flags": "merge"})
         nstate += 1
         for fmt in fmts:
-            if fmt != "2a" and nstate % 4:
+            if fmt != "2a" and nstate % 6:
                 continue
-            jobs.append((fmt, st["basis"], tpls[(fmt, st["basis"])], st, combos, nstate % (3 if q else 2) == 1))
+            jobs.append((fmt, st["basis"], tpls[(fmt, st["basis"])], st, combos, nstate % 3 == 1))
     # ---- fault half
     tplb = {(fmt, bn): make_template(ctx.workdir, fmt, bn, b, tree_less=True) for fmt in fmts for bn, b in bases.items()}
     cand = [s for s in states if s["basis"] == "B0" and len(s["h"]) == 2 and any(k["ok"] and 0 < len(k["S"]) < 4 for k in s["classes"])]
@@ -623,12 +623,12 @@ def run(ctx):
         if drift and not failed and meta.get("fault", "none") == "none":
             ctx.drift("commit outcome %s where the specification says %s (%s)" % (
                 o.get("detail"), "refused / failed" if o["outcome"] == "ok" else "ok", shape(row)), row)
-    ctx.cov["exhaustive"] = bool(not q)
+    ctx.cov["exhaustive"] = False      # the deepest level of edit sequences is sampled (seeded)
     ctx.rule("states = every edit sequence of length <= 2 over {add, remove, rename, modify, chmod, delete-on-disk, kind change} from "
-             "basis B0 (a, d/, d/b) and B1 (a*, c/, c/d/, c/d/b@) enumerated by TLC (quick: deepest level sampled 1/36; thorough: all, "
-             "plus 1/100 of the length-3 sequences); per state every distinct selected-id set reachable with <= 2 "
+             "basis B0 (a, d/, d/b) and B1 (a*, c/, c/d/, c/d/b@) enumerated by TLC (quick: length-2 sequences sampled 1/36; thorough: 1/2 "
+             "(B1: 1/6), plus 1/300 of the length-3 sequences); per state every distinct selected-id set reachable with <= 2 "
              "specific files and <= 1 exclude (2 for single edits), replayed with the smallest path choice that produces it (every third state: "
-             "a second, random one), every second / third state followed by a commit of everything left; thorough: every fourth state also on pack-0.92; plus merge / conflict refusals; fault half: every mutating repository/branch transport "
+             "a second, random one), every third state followed by a commit of everything left; thorough: every sixth state also on pack-0.92; plus merge / conflict refusals; fault half: every mutating repository/branch transport "
              "operation of sampled commits fails once, plus message_callback, tree read, pre_commit and post_commit hooks raising; "
              "non-trivial = at least one edit and a partial selection, or an injected fault")
     ctx.assume("an injected fault is an exception raised instead of the operation; the process survives (crash atomicity is C04)")
